@@ -232,14 +232,46 @@ fn enc_raw(font: &BitFont, want: &Ref) -> EncResult {
     Ok(("", true))
 }
 
-fn enc_dcs(font: &BitFont, want: &Ref, slot: usize) -> EncResult {
+/// What happened to the terminal before the font under test is sent: the DCS writes INTO an existing buffer, so
+/// the target slot may already hold a font (loaded earlier, or a built-in page selected into it), other slots are
+/// loaded in between, the terminal may have been reset. Everything goes through one parser instance.
+#[derive(Clone, Debug, Hash, PartialEq, Eq, Serialize, Deserialize)]
+pub enum Pre {
+    /// an earlier font sequence: into the slot of the font under test (`same_slot`) or into slot + 1 + other % 3;
+    /// kind 0 = the font under test itself (identical font twice), 1 = other glyphs of the same height,
+    /// 2 = other glyphs with the model's own height
+    Load { same_slot: bool, other: u8, kind: u8, font: FontM },
+    /// font selection CSI 0;slot SP D (puts the built-in page into an empty slot <= 42)
+    Select { same_slot: bool, other: u8 },
+    /// ESC c
+    Ris,
+    /// CSI ! p
+    SoftReset,
+    /// printable text
+    Text,
+}
+
+pub struct Env<'a> {
+    pub slot: usize,
+    pub compress: bool,
+    /// documents: the font slots already hold another font when the font under test is set
+    pub stale: bool,
+    pub pre: &'a [Pre],
+}
+
+fn dcs_reference(slot: usize, data: &[u8]) -> String {
     use base64::{engine::general_purpose, Engine};
+    // CTerm: DCS "CTerm:Font:" slot ":" base64(raw glyph bytes) ST
+    format!("\x1bPCTerm:Font:{slot}:{}\x1b\\", general_purpose::STANDARD.encode(data))
+}
+
+fn enc_dcs(font: &BitFont, want: &Ref, env: &Env) -> EncResult {
+    let slot = env.slot;
     if !want.is_8x256() {
         return Ok(("+not_representable", false));
     }
     let s = font.encode_as_ansi(slot);
-    // CTerm: DCS "CTerm:Font:" slot ":" base64(raw glyph bytes) ST
-    let r = format!("\x1bPCTerm:Font:{slot}:{}\x1b\\", general_purpose::STANDARD.encode(&want.data));
+    let r = dcs_reference(slot, &want.data);
     if s != r {
         let at = first_diff(s.as_bytes(), r.as_bytes());
         return Err(Verdict::fail("dcs.write|string", format!("encode_as_ansi({slot}) differs from the CTerm font sequence at byte {at} ({} vs {} bytes)", s.len(), r.len())));
@@ -249,16 +281,77 @@ fn enc_dcs(font: &BitFont, want: &Ref, slot: usize) -> EncResult {
     }
     let (mut buf, mut caret) = icyv::stream::make_terminal(80, 25, 0);
     let mut parser = icyv::stream::make_parser(0);
-    for ch in s.chars() {
-        if let Err(e) = parser.print_char(&mut buf, 0, &mut caret, ch) {
-            return Err(Verdict::fail(format!("dcs|parser_error|{}", strip_digits(&e.to_string())), format!("the ANSI parser rejects the font sequence for slot {slot}, height {}: {e}", want.h)));
+    // slot -> the last font sent into it (dropped by a reset: what a reset does to loaded fonts is not this property's subject)
+    let mut expect: std::collections::BTreeMap<usize, std::rc::Rc<Ref>> = std::collections::BTreeMap::new();
+    let want_rc = std::rc::Rc::new(Ref { w: want.w, h: want.h, len: want.len, data: want.data.clone() });
+    let other_slot = |same: bool, other: u8| if same { slot } else { slot + 1 + (other % 3) as usize };
+    let mut reloads = 0;
+    let total = env.pre.len();
+    for step in 0..=total {
+        // (target slot, the sequence, what the slot must hold afterwards) for loads; other steps just feed bytes
+        let (bytes, loaded): (String, Option<(usize, std::rc::Rc<Ref>)>) = if step == total {
+            (s.clone(), Some((slot, want_rc.clone())))
+        } else {
+            match &env.pre[step] {
+                Pre::Load { same_slot, other, kind, font: m } => {
+                    let target = other_slot(*same_slot, *other);
+                    let r = match kind % 3 {
+                        0 => want_rc.clone(),
+                        1 => std::rc::Rc::new(Ref { w: 8, h: want.h, len: 256, data: m.data(want.h as usize, 256) }),
+                        _ => std::rc::Rc::new(ref_of(m, "dcs", None)),
+                    };
+                    if r.psf_magic() {
+                        continue;
+                    }
+                    (build(&r, false).encode_as_ansi(target), Some((target, r)))
+                }
+                Pre::Select { same_slot, other } => (format!("\x1b[0;{} D", other_slot(*same_slot, *other)), None),
+                Pre::Ris => ("\x1bc".to_string(), None),
+                Pre::SoftReset => ("\x1b[!p".to_string(), None),
+                Pre::Text => ("font test\r\n".to_string(), None),
+            }
+        };
+        let is_reset = step < total && matches!(env.pre[step], Pre::Ris | Pre::SoftReset);
+        for ch in bytes.chars() {
+            if let Err(e) = parser.print_char(&mut buf, 0, &mut caret, ch) {
+                if loaded.is_some() {
+                    return Err(Verdict::fail(
+                        format!("dcs|parser_error|{}", strip_digits(&e.to_string())),
+                        format!("step {step}: the ANSI parser rejects the font sequence for slot {}, height {}: {e}", loaded.as_ref().unwrap().0, loaded.as_ref().unwrap().1.h),
+                    ));
+                }
+                // a refused selection (no such font page) or reset detail is not a font transport
+            }
+        }
+        if is_reset {
+            expect.clear();
+            continue;
+        }
+        let reload = loaded.as_ref().map(|(t, _)| expect.contains_key(t)).unwrap_or(false);
+        if reload {
+            reloads += 1;
+        }
+        if let Some((t, r)) = &loaded {
+            expect.insert(*t, r.clone());
+        }
+        // after every step: every slot holds the last font sent into it
+        for (t, r) in &expect {
+            let tag = match &loaded {
+                Some((lt, _)) if lt == t && reload => "dcs.reload",
+                Some((lt, _)) if lt == t => "dcs",
+                Some(_) => "dcs.other_slot",
+                None => "dcs.after_control",
+            };
+            let Some(back) = buf.get_font(*t) else {
+                return Err(Verdict::fail(format!("{tag}|font_missing"), format!("step {step} of {total}: no font in slot {t} although a font sequence for it was parsed")));
+            };
+            compare(tag, back, r).map_err(|v| match v {
+                Verdict::Fail { key, msg } => Verdict::Fail { key, msg: format!("step {step} of {total}, slot {t}: {msg}") },
+                v => v,
+            })?;
         }
     }
-    let Some(back) = buf.get_font(slot) else {
-        return Err(Verdict::fail("dcs|font_missing", format!("no font in slot {slot} after the font sequence was parsed")));
-    };
-    compare("dcs", back, want)?;
-    Ok(("", true))
+    Ok((if reloads > 0 { "+reload" } else if total > 0 { "+session" } else { "" }, true))
 }
 
 fn opts(compress: bool) -> SaveOptions {
@@ -275,11 +368,19 @@ fn cell(ch: char, page: usize) -> AttributedChar {
     AttributedChar::new(ch, a)
 }
 
-fn doc(w: i32, fonts: &[(usize, &BitFont)], pages: &[usize]) -> Buffer {
+fn doc(w: i32, fonts: &[(usize, &BitFont)], pages: &[usize], stale: bool) -> Buffer {
     let mut buf = Buffer::new((w, 1));
     buf.is_terminal_buffer = false;
     buf.ice_mode = IceMode::Ice;
-    buf.clear_font_table();
+    if stale {
+        // the document already has (other) fonts in these slots: set_font must replace them
+        let old = BitFont::create_8("stale font", 8, 8, &[0xAA; 2048]);
+        for (slot, _) in fonts {
+            buf.set_font(*slot, old.clone());
+        }
+    } else {
+        buf.clear_font_table();
+    }
     for (slot, f) in fonts {
         buf.set_font(*slot, (*f).clone());
     }
@@ -297,11 +398,12 @@ fn is_engine_default(want: &Ref) -> bool {
 
 /// XBin (doc/FileFormats/x_bin.htm): 11 byte header (id, eof, width, height, fontsize, flags), palette (48) if
 /// flag bit 0, font (fontsize*256, twice in 512-character mode = flag bit 4) if flag bit 1.
-fn enc_xb(font: &BitFont, want: &Ref, second: Option<(&BitFont, &Ref)>, compress: bool) -> EncResult {
+fn enc_xb(font: &BitFont, want: &Ref, second: Option<(&BitFont, &Ref)>, env: &Env) -> EncResult {
+    let compress = env.compress;
     let representable = want.is_8x256() && want.h <= 32;
     let buf = match second {
-        None => doc(2, &[(0, font)], &[0]),
-        Some((f2, _)) => doc(2, &[(0, font), (1, f2)], &[0, 1]),
+        None => doc(2, &[(0, font)], &[0], env.stale),
+        Some((f2, _)) => doc(2, &[(0, font), (1, f2)], &[0, 1], env.stale),
     };
     let bytes = match buf.to_bytes("xb", &opts(compress)) {
         Ok(b) => b,
@@ -362,9 +464,10 @@ fn enc_xb(font: &BitFont, want: &Ref, second: Option<(&BitFont, &Ref)>, compress
 
 /// ADF (doc/FileFormats/Adf): version byte, 192 palette bytes, 4096 font bytes, screen data.
 /// IDF (doc/FileFormats/IceDraw): header, screen data, 4096 font bytes, 48 palette bytes.
-fn enc_adf_idf(ext: &'static str, font: &BitFont, want: &Ref, compress: bool) -> EncResult {
+fn enc_adf_idf(ext: &'static str, font: &BitFont, want: &Ref, env: &Env) -> EncResult {
+    let compress = env.compress;
     let representable = want.is_8x256() && want.h == 16;
-    let buf = doc(80, &[(0, font)], &[0]);
+    let buf = doc(80, &[(0, font)], &[0], env.stale);
     let bytes = match buf.to_bytes(ext, &opts(compress)) {
         Ok(b) => b,
         Err(e) if representable => return Err(Verdict::fail(format!("{ext}|save_error|{}", strip_digits(&e.to_string())), format!("saving a document with an 8x16 font as .{ext} failed: {e}"))),
@@ -395,10 +498,10 @@ fn enc_adf_idf(ext: &'static str, font: &BitFont, want: &Ref, compress: bool) ->
     Ok(("", true))
 }
 
-fn enc_icy(font: &BitFont, want: &Ref, extra: Option<(usize, &BitFont, &Ref)>) -> EncResult {
+fn enc_icy(font: &BitFont, want: &Ref, extra: Option<(usize, &BitFont, &Ref)>, env: &Env) -> EncResult {
     let buf = match extra {
-        None => doc(2, &[(0, font)], &[0]),
-        Some((slot, f2, _)) => doc(2, &[(0, font), (slot, f2)], &[0, slot]),
+        None => doc(2, &[(0, font)], &[0], env.stale),
+        Some((slot, f2, _)) => doc(2, &[(0, font), (slot, f2)], &[0, slot], env.stale),
     };
     let bytes = match buf.to_bytes("icy", &opts(true)) {
         Ok(b) => b,
@@ -430,19 +533,19 @@ struct Second<'a> {
     slot: usize,
 }
 
-fn run_enc(enc: &str, font: &BitFont, want: &Ref, second: Option<Second>, slot: usize, compress: bool) -> EncResult {
+fn run_enc(enc: &str, font: &BitFont, want: &Ref, second: Option<Second>, env: &Env) -> EncResult {
     match enc {
         "psf2" => enc_psf2(font, want),
         "raw" => enc_raw(font, want),
-        "dcs" => enc_dcs(font, want, slot),
-        "xb" => enc_xb(font, want, None, compress),
+        "dcs" => enc_dcs(font, want, env),
+        "xb" => enc_xb(font, want, None, env),
         "xb2" => match second {
-            Some(s) => enc_xb(font, want, Some((s.font, s.want)), compress),
+            Some(s) => enc_xb(font, want, Some((s.font, s.want)), env),
             None => Ok(("+not_representable", false)),
         },
-        "adf" => enc_adf_idf("adf", font, want, compress),
-        "idf" => enc_adf_idf("idf", font, want, compress),
-        _ => enc_icy(font, want, second.map(|s| (s.slot, s.font, s.want))),
+        "adf" => enc_adf_idf("adf", font, want, env),
+        "idf" => enc_adf_idf("idf", font, want, env),
+        _ => enc_icy(font, want, second.map(|s| (s.slot, s.font, s.want)), env),
     }
 }
 
@@ -556,8 +659,11 @@ pub struct BmCase {
     pub font2: Option<FontM>,
     /// font slot for the DCS sequence / the extra IcyDraw font
     pub slot: u16,
-    /// bit 0: SaveOptions::compress
+    /// bit 0: SaveOptions::compress; bit 1 (document encodings): the font slots already hold another font
     pub flags: u8,
+    /// DCS: what the terminal went through before the font under test is sent (see `Pre`)
+    #[serde(default)]
+    pub pre: Vec<Pre>,
 }
 
 fn fills() -> BoxedStrategy<Fill> {
@@ -616,8 +722,21 @@ pub fn cases() -> BoxedStrategy<BmCase> {
             // the route is independent of the glyph data and of the encoding
             let route = prop_oneof![3 => Just(0u8), 2 => Just(1u8), 2 => Just(2u8), 2 => Just(3u8), 3 => Just(4u8), 2 => Just(5u8), 1 => Just(6u8)];
             let src = prop_oneof![3 => Just(0u16), 3 => any::<u16>()];
-            (fonts(h, big), second, slot, 0u8..2, route, src, vec(any::<u8>(), 1..=8))
-                .prop_map(move |(font, font2, slot, flags, route, src, edits)| BmCase { enc, route, src, edits, font, font2, slot, flags })
+            let pre = if name == "dcs" {
+                let target = || (prop::bool::weighted(0.7), 0u8..3);
+                let step = prop_oneof![
+                    6 => (target(), 0u8..3, fonts(heights(), Just(false).boxed())).prop_map(|((same_slot, other), kind, font)| Pre::Load { same_slot, other, kind, font }),
+                    2 => target().prop_map(|(same_slot, other)| Pre::Select { same_slot, other }),
+                    1 => Just(Pre::Ris),
+                    1 => Just(Pre::SoftReset),
+                    1 => Just(Pre::Text),
+                ];
+                prop_oneof![1 => Just(Vec::new()), 4 => vec(step, 1..=5)].boxed()
+            } else {
+                Just(Vec::new()).boxed()
+            };
+            (fonts(h, big), second, slot, 0u8..4, route, src, vec(any::<u8>(), 1..=8), pre)
+                .prop_map(move |(font, font2, slot, flags, route, src, edits, pre)| BmCase { enc, route, src, edits, font, font2, slot, flags, pre })
                 .boxed()
         })
         .collect();
@@ -681,14 +800,15 @@ pub fn check(c: &BmCase) -> Verdict {
         (Some(f), Some(r)) => Some(Second { font: f, want: r, slot: c.slot.max(1) as usize }),
         _ => None,
     };
-    let compress = c.flags & 1 != 0;
-    match run_enc(enc, &font, &want, second(), c.slot as usize, compress) {
+    let env = Env { slot: c.slot as usize, compress: c.flags & 1 != 0, stale: c.flags & 2 != 0, pre: &c.pre };
+    match run_enc(enc, &font, &want, second(), &env) {
         Ok((suffix, performed)) => {
             let big = if want.len == 512 { "+512" } else { "" };
-            let skipped = if performed { "" } else { suffix };
-            Verdict::pass(performed && want.varied(), format!("{enc}{big}|{route}{skipped}"))
+            let target = if !performed || enc != "dcs" { suffix } else if suffix == "+reload" { "+reload" } else { "" };
+            let stale = if env.stale && performed && matches!(enc, "xb" | "xb2" | "adf" | "idf" | "icy") { "+stale_doc" } else { "" };
+            Verdict::pass(performed && want.varied(), format!("{enc}{big}|{route}{target}{stale}"))
         }
-        Err(v) => attribute_route(v, route, &|| run_enc(enc, &build(&want, false), &want, second(), c.slot as usize, compress)),
+        Err(v) => attribute_route(v, route, &|| run_enc(enc, &build(&want, false), &want, second(), &env)),
     }
 }
 
@@ -715,6 +835,21 @@ pub fn minimize(c: &BmCase) -> Vec<BmCase> {
         }
         v
     };
+    for i in 0..c.pre.len() {
+        let mut pre = c.pre.clone();
+        pre.remove(i);
+        out.push(BmCase { pre, ..c.clone() });
+    }
+    for (i, p) in c.pre.iter().enumerate() {
+        if let Pre::Load { same_slot, other, kind, font } = p {
+            let plain = FontM { h: 16, big: false, fill: Fill::Index, patch: Vec::new(), head: Bytes(Vec::new()) };
+            if *font != plain {
+                let mut pre = c.pre.clone();
+                pre[i] = Pre::Load { same_slot: *same_slot, other: *other, kind: *kind, font: plain };
+                out.push(BmCase { pre, ..c.clone() });
+            }
+        }
+    }
     if c.route != 0 {
         out.push(BmCase { route: 0, ..c.clone() });
     }
@@ -794,8 +929,12 @@ pub fn check_builtin(c: &BuiltinCase) -> Verdict {
         _ => None,
     };
     let slot = if c.source.len() % 2 == 0 { 0 } else { 7 };
-    match run_enc(enc, &font, &want, second(), slot, true) {
+    // the edited routes meet a used target (slot loaded before / document slots occupied), the others a fresh one
+    let used = matches!(route, "edited" | "edited_renamed");
+    let pre = if used { vec![Pre::Load { same_slot: true, other: 0, kind: 1, font: FontM { h: 16, big: false, fill: Fill::Index, patch: Vec::new(), head: Bytes(Vec::new()) } }] } else { Vec::new() };
+    let env = Env { slot, compress: true, stale: used, pre: &pre };
+    match run_enc(enc, &font, &want, second(), &env) {
         Ok((suffix, performed)) => Verdict::pass(performed, format!("{enc}|{route}|{}x{}x{}{}", want.w, want.h, want.len, if performed { "" } else { suffix })),
-        Err(v) => attribute_route(v, route, &|| run_enc(enc, &build(&want, false), &want, second(), slot, true)),
+        Err(v) => attribute_route(v, route, &|| run_enc(enc, &build(&want, false), &want, second(), &env)),
     }
 }
